@@ -239,13 +239,17 @@ def js_number_to_string(x):
     return ('-' if x < 0 else '') + out
 
 
+KF_TIE = 'C15/number_to_string/digits/exact-tie-between-two-shortest-strings'
+TIE_VECTORS = [203563962632585.12]
+
+
 def check_digits_concrete(rep):
     """replay route: number_to_string on boundary values and seeded random doubles of every magnitude against js_number_to_string"""
     import random
     import struct
     rnd = random.Random(rep.seed + 15)
     xs = [123456789012345680000.0, 999999999999999900000.0, 1e21, 1e100, 1e300, 1.2345e-7, 123456789e15, 1.7976931348623157e308, 5e-324, 2.2250738585072014e-308,
-          1e-6, 1e-7, 0.000001234, 123.456, -1.5e-10, -2.5e25, 4294967296.0, 9007199254740993.0, 0.1, 1 / 3, 100.0, 1e20, 12345678901234567890.0, -1e21, 1.5e-7]
+          1e-6, 1e-7, 0.000001234, 123.456, 203563962632585.12, -1.5e-10, -2.5e25, 4294967296.0, 9007199254740993.0, 0.1, 1 / 3, 100.0, 1e20, 12345678901234567890.0, -1e21, 1.5e-7]
     for _ in range(120 if rep.tier == 'quick' else 1200):
         bits = rnd.getrandbits(64)
         x = struct.unpack('<d', struct.pack('<Q', bits))[0]
@@ -257,11 +261,26 @@ def check_digits_concrete(rep):
     reqs = [{'cmd': 'number_to_string', 'bits': '%016x' % struct.unpack('<Q', struct.pack('<d', x))[0]} for x in xs]
     outs = driver.replay(reqs)
     bad = []
+    ties = []
     for x, o in zip(xs, outs):
         rep.validated += 1
         want = js_number_to_string(x)
-        if o.get('out') != want:
-            bad.append((x, o.get('out'), want))
+        got = o.get('out')
+        if got != want:
+            # the one class that is a known finding: the double lies EXACTLY half-way between two decimal strings of the same (shortest)
+            # length; ECMAScript takes the even one, Rust's formatter (which tsrun uses for the digits) the other
+            try:
+                from decimal import Decimal
+                is_tie = (len(got) == len(want) and float(got) == x and float(want) == x and
+                          abs(Decimal(got) - Decimal(x)) == abs(Decimal(want) - Decimal(x)))
+            except Exception:
+                is_tie = False
+            (ties if is_tie else bad).append((x, got, want))
+    if ties:
+        x, got, want = ties[0]
+        p = rep.write_replay('digits-tie', {'cmd': 'number_to_string', 'bits': '%016x' % struct.unpack('<Q', struct.pack('<d', x))[0], 'observed': got, 'expected': want,
+                                            'all_ties': [(repr(a), b, c) for a, b, c in ties]})
+        rep.violation(KF_TIE, 'number_to_string(%r) = %r; the double is exactly half-way between that and %r, ECMAScript prescribes the even digit string %r' % (x, got, want, want), p)
     if bad and not rep.seen('C15/number_to_string/digits'):
         x, got, want = bad[0]
         p = rep.write_replay('digits', {'cmd': 'number_to_string', 'bits': '%016x' % struct.unpack('<Q', struct.pack('<d', x))[0], 'observed': got, 'expected': want,
